@@ -76,6 +76,7 @@ typedef struct {
   volatile int n_badtarget, n_foreign_close, n_double_close, n_unknown_free;
   // in-child (fork mode) notes
   volatile int inchild_ret, inchild_done;
+  volatile int inchild_n, inchild_res[12];   // results of API calls made on the child side of a fork-mode start
   // delay injection seed (mt engine)
   uint32_t delay_seed;
 } wshared;
